@@ -21,6 +21,7 @@ type NestCase struct {
 	D             int    // second recursive call uses n - D (0: the literal has one expression only)
 	Depth         int    // nest(Depth) is evaluated
 	Loop          int    // additionally the literal "A{{i}}B{{i * 2}}C" is evaluated for i = 1..Loop
+	BadFront      bool   `json:"bad_front,omitempty"` // the bad expression is the FIRST one of the loop literal (the good ones follow it)
 	Bad           int    `json:"bad,omitempty"` // > 0: the loop literal ends in a third expression, badCodes[Bad], which does not validate / parse / evaluate: an inline marker (any text) must appear, every time
 }
 
@@ -34,7 +35,7 @@ func drawNest(rt *rapid.T) *NestCase {
 	t := func(l string) string { return rapid.SampledFrom(nestTexts).Draw(rt, l) }
 	return &NestCase{A: t("a"), B: t("b"), C: t("c"), Leaf: rapid.SampledFrom([]string{".", "leaf", "", "0"}).Draw(rt, "leaf"),
 		D: rapid.IntRange(0, 2).Draw(rt, "d"), Depth: rapid.IntRange(1, 4).Draw(rt, "depth"), Loop: rapid.IntRange(0, 4).Draw(rt, "loop"),
-		Bad: rapid.IntRange(0, len(badCodes)-1).Draw(rt, "bad")}
+		Bad: rapid.IntRange(0, len(badCodes)-1).Draw(rt, "bad"), BadFront: rapid.Bool().Draw(rt, "badfront")}
 }
 
 func (n NestCase) expect(k int) string {
@@ -64,7 +65,11 @@ func runNest(n NestCase) *hx.Failure {
 		if n.Bad > 0 && n.Bad < len(badCodes) {
 			bad = "{{" + badCodes[n.Bad] + "}}"
 		}
-		fmt.Fprintf(&b, "for i in range(1, %d) {\n    t.rec(\"%s{{i}}%s{{i * 2}}%s%s\")\n}\n", n.Loop, q(n.A), q(n.B), q(n.C), bad)
+		if n.BadFront {
+			fmt.Fprintf(&b, "for i in range(1, %d) {\n    t.rec(\"%s%s{{i}}%s{{i * 2}}%s\")\n}\n", n.Loop, bad, q(n.A), q(n.B), q(n.C))
+		} else {
+			fmt.Fprintf(&b, "for i in range(1, %d) {\n    t.rec(\"%s{{i}}%s{{i * 2}}%s%s\")\n}\n", n.Loop, q(n.A), q(n.B), q(n.C), bad)
+		}
 	}
 	src := b.String()
 	key := "nest:" + src
@@ -90,8 +95,8 @@ func runNest(n NestCase) *hx.Failure {
 	for i, w := range want {
 		if i > 0 && n.Bad > 0 && n.Bad < len(badCodes) {
 			// the text of the inline marker is not specified: the part before it is
-			if got, ok := res.Trace[i].(string); !ok || !strings.HasPrefix(got, w) || got == w {
-				return hx.Failf("nest:output-mismatch", "evaluation %d of the literal yields %q; expected %q followed by an inline error marker for the code %q\n%s", i, res.Trace[i], w, badCodes[n.Bad], src)
+			if got, ok := res.Trace[i].(string); !ok || got == w || (!n.BadFront && !strings.HasPrefix(got, w)) || (n.BadFront && !strings.HasSuffix(got, w)) {
+				return hx.Failf("nest:output-mismatch", "evaluation %d of the literal yields %q; expected %q with an inline error marker for the code %q behind it (or in front of it if the bad expression comes first)\n%s", i, res.Trace[i], w, badCodes[n.Bad], src)
 			}
 			continue
 		}
